@@ -13,7 +13,7 @@ import Pongo.Model.Ast
 namespace Pongo
 
 inductive ErrKind
-  | lexer | parser | fromfile | exec | outOfFuel | unsupported
+  | lexer | parser | fromfile | exec | outOfFuel | unsupported | other
   deriving DecidableEq, Repr, Inhabited
 
 structure PErr where
